@@ -936,6 +936,154 @@ def run_args(R, O, H, lattice, presets):
                          "is enumerated deterministically on the real code (theorem threads_transparent covers any number of threads and any "
                          "schedule of the model); interleavings INSIDE tile_geobox and between other statements are only sampled by the stress")
 
+    # --- final increment: compositions with GeoboxTiles (C04/C12) and GeoBox.from_bbox (C08), signed zeros, valid-region box
+    from odc.geo.geobox import GeoBox, GeoboxTiles
+    for sp in rng.sample(lattice, R.pick(6, 24)) + [H.Spec(*a) for a in ((4000, 4000, 25.0, -25.0, 0.0, 0.0, False, False), (3333, 3334, 1 / 3, -1 / 3, -1234.5678, 8765.4321, True, True))]:
+        gs = sp.make(O)
+        k = (rng.randint(-4, 4), rng.randint(-4, 4))
+        case = {"op": "a:subtiles", "grid": sp.tok(), "k": list(k)}
+        bad = None
+        try:
+            tile = gs[k]
+            ny, nx = tile.shape
+            a, b = rng.randint(1, max(1, min(ny, 1500))), rng.randint(1, max(1, min(nx, 1700)))
+            case["chunk"] = [a, b]
+            gbt = GeoboxTiles(tile, (a, b))
+            rows, cols = gbt.shape
+            seen_px, A = 0, tile.affine
+            if (rows, cols) != (-(-ny // a), -(-nx // b)):
+                bad = f"GeoboxTiles(gs[{k}], {(a, b)}).shape = {(rows, cols)}"
+            for r in range(rows):
+                for c in range(cols):
+                    sub = gbt[r, c]
+                    y0, x0 = r * a, c * b
+                    seen_px += sub.shape[0] * sub.shape[1]
+                    want = A * (x0, y0)
+                    got = sub.affine * (0, 0)
+                    slack = float(Fraction(1, 2**46) * max(1, abs(Fraction(want[0])), abs(Fraction(want[1]))))
+                    if abs(got[0] - want[0]) > slack or abs(got[1] - want[1]) > slack or sub.shape != (min(a, ny - y0), min(b, nx - x0)) \
+                            or (sub.affine.a, sub.affine.e, sub.affine.b, sub.affine.d) != (A.a, A.e, A.b, A.d):
+                        bad = f"sub-tile {(r, c)} of gs[{k}] chunked {(a, b)}: {sub!r}, expected pixel origin {(x0, y0)} -> {want}"
+                    if rows * cols > 400:
+                        break
+                if rows * cols > 400:
+                    break
+            if rows * cols <= 400 and seen_px != ny * nx and not bad:
+                bad = f"sub-tiles of gs[{k}] cover {seen_px} pixels, the tile has {ny * nx}"
+        except Exception as e:  # pylint: disable=broad-except
+            bad = repr(e)
+        R.oracle(bad is None, "tile-subtiles-do-not-partition", case, str(bad), sig="compose|GeoboxTiles-of-tile")
+        if sp.rx > 0 and sp.ry < 0:
+            try:
+                tile = gs[k]
+                rb = GeoBox.from_bbox(tile.boundingbox, shape=gs.tile_shape, tight=True)
+                slack = float(Fraction(1, 2**46) * max([Fraction(1)] + [abs(Fraction(v)) for v in tile.boundingbox[:4]]))
+                ok = rb.shape == tile.shape and rb.crs == tile.crs and all(abs(u - v) <= slack for u, v in zip(tuple(rb.affine)[:6], tuple(tile.affine)[:6]))
+                what = f"from_bbox(gs[{k}].boundingbox, shape=tile_shape, tight=True) = {rb!r}, tile = {tile!r}"
+            except Exception as e:  # pylint: disable=broad-except
+                ok, what = False, repr(e)
+            R.oracle(ok, "from-bbox-does-not-rebuild-tile", {"op": "a:frombbox", "grid": sp.tok(), "k": list(k)}, what, sig="compose|from_bbox-of-tile")
+        # grid_intersect between the tilings of two DIFFERENT tiles of the grid is empty (theorem neighbour_tilings_do_not_intersect)
+        for dk in rng.sample([(1, 0), (-1, 0), (0, 1), (0, -1), (1, 1), (-1, 1), (2, 0), (0, -3)], 2):
+            try:
+                ta, tb2 = gs[k], gs[k[0] + dk[0], k[1] + dk[1]]
+                ch = lambda n_: rng.randint(n_ // 6 + 1, max(n_ // 6 + 1, n_))      # at most 6 chunks per axis
+                ca = (ch(ta.shape[0]), ch(ta.shape[1]))
+                cb = (ch(ta.shape[0]), ch(ta.shape[1]))
+                gi = GeoboxTiles(ta, ca).grid_intersect(GeoboxTiles(tb2, cb))
+                ne = {d_: s_ for d_, s_ in gi.items() if s_}
+                ok, what = not ne, f"grid_intersect of the tilings of tiles {k} and {(k[0] + dk[0], k[1] + dk[1])} (chunks {ca}, {cb}) is not empty: {list(ne.items())[:3]}"
+            except Exception as e:  # pylint: disable=broad-except
+                ok, what = False, repr(e)
+            R.oracle(ok, "tilings-of-different-tiles-intersect", {"op": "a:gridint", "grid": sp.tok(), "k": list(k), "dk": list(dk)}, what,
+                     sig="compose|grid_intersect-of-neighbours")
+    # signed zeros (model Bin1D.loZ/hiZ/binZ): the VALUES are compared; the sign bit of a zero edge is recorded, not judged (a commuted
+    # exact product such as idx*direction*sz legitimately turns -0.0 into +0.0)
+    zl, zr = [], []
+    for szv in (2.5, 1.0):
+        for o in (0.0, -0.0, 5.0, -2.5):
+            for d in (1, -1):
+                for kk in (0, 0.0, -0.0, 2.0, -1.0, 1, -2):
+                    oz = o == 0 and math.copysign(1, o) < 0
+                    kn = isinstance(kk, float) and kk == 0 and math.copysign(1, kk) < 0
+                    zl.append(f"c14 loz {frac_s(szv)} {frac_s(o)} {bool_s(oz)} {d} {frac_s(kk)} {bool_s(kn)}")
+                    try:
+                        bz = O.Bin1D(szv, o, d)
+                        lo, hi = bz[kk]
+                        zr.append((frac_s(lo), bool_s(lo == 0 and math.copysign(1, lo) < 0), frac_s(hi), bool_s(hi == 0 and math.copysign(1, hi) < 0), str(bz.bin(float(kk)))))
+                    except Exception as e:  # pylint: disable=broad-except
+                        zr.append(("ERR", repr(e), "", "", ""))
+    try:
+        zm = [t.split(" ") for t in H.run_driver("C14", zl)] if R.proof_break is None else None
+    except Exception:  # pylint: disable=broad-except
+        zm = None
+    if zm is not None:
+        vals_ok = sum(1 for m_, r_ in zip(zm, zr) if len(m_) == 5 and (m_[0], m_[2], m_[4]) == (r_[0], r_[2], r_[4]))
+        sign_ok = sum(1 for m_, r_ in zip(zm, zr) if len(m_) == 5 and (m_[1], m_[3]) == (r_[1], r_[3]))
+        R.count("signed-zero|values-agree", vals_ok)
+        R.count("signed-zero|sign-bits-agree", sign_ok)
+        first = next((f"{l}: real {r_} model {m_}" for l, m_, r_ in zip(zl, zm, zr) if len(m_) != 5 or (m_[0], m_[2], m_[4]) != (r_[0], r_[2], r_[4])), None)
+        R.oracle(first is None, "signed-zero-changes-value", {"op": "a:loz"}, str(first), sig="signed-zero|values")
+        if sign_ok != len(zl):
+            R.notes.append(f"signed zeros: {len(zl) - sign_ok} of {len(zl)} zero-edge sign bits differ from the model of today's code (theorem "
+                           "signed_zero_lower_edge); not observable through ==, hash or any comparison; recorded only")
+    # valid-region box of geojson()'s default branch: the library's own densified + projected ring -> the query box (model validRegionBox)
+    for crs_s in ("epsg:3577", "epsg:3111", "epsg:32755")[: R.pick(2, 3)]:
+        try:
+            gs0 = O.GridSpec(crs_s, (10, 10), 1000.0)
+            vr = gs0.crs.valid_region
+            ring = vr.buffer(-0.05).to_crs(gs0.crs, resolution=0.5)
+            pts = [(float(x), float(y)) for x, y in ring.exterior.points]
+            if all(math.isfinite(v) for p_ in pts for v in p_):
+                R.corr("c14 vbox " + list_s(pts, lambda p_: f"{fs(p_[0])};{fs(p_[1])}"), lambda: H.bb_s(ring.boundingbox), "geojson-default|valid-region-box")
+            w, s_, e, n = vr.boundingbox[:4]
+            shr = sorted((float(x), float(y)) for x, y in set(vr.buffer(-0.05).exterior.points))
+            mod = H.run_driver("C14", [f"c14 shrunk {fs(w)} {fs(s_)} {fs(e)} {fs(n)}"])[0] if R.proof_break is None else None
+            if mod is not None:
+                mp = sorted(tuple(float(Fraction(v)) for v in q.split(";")) for q in mod[1:-1].split(","))
+                same = len(mp) == len(shr) and all(abs(a_ - b_) < 1e-9 for p1, p2 in zip(mp, shr) for a_, b_ in zip(p1, p2))
+                R.count("geojson-default|shrunk-box-" + ("agrees" if same else "differs"))
+                if not same:
+                    R.notes.append(f"valid region of {crs_s} shrunk by 0.05: library ring {shr[:5]} vs model {mp[:5]} (informational: shapely buffer)")
+        except Exception as e:  # pylint: disable=broad-except
+            R.notes.append(f"valid-region pipeline probe for {crs_s} failed: {e!r}")
+
+    # --- the proved binary64 error bound (fl64_rounding_error) and the exclusion band of point lookup (bin_transfer_band_fl64),
+    #     checked on CPython doubles / the real Bin1D.bin with exact Fractions
+    U, ETA = Fraction(1, 2**53), Fraction(1, 2**1075)
+    for _ in range(R.pick(300, 3000)):
+        kind_ = rng.random()
+        if kind_ < 0.5:
+            qv = Fraction(rng.randint(-10**rng.randint(1, 40), 10**rng.randint(1, 40)), rng.randint(1, 10**rng.randint(1, 40)))
+        elif kind_ < 0.8:
+            qv = Fraction(rng.getrandbits(70) + 1, 2**rng.randint(1000, 1140)) * rng.choice([1, -1])     # around / below the subnormal range
+        else:
+            qv = Fraction(2 * (rng.getrandbits(53) | (1 << 52)) + 1, 2) * Fraction(2) ** rng.randint(-1100, 900)  # exact ties
+        try:
+            fv = Fraction(float(qv))
+            ok = abs(fv - qv) <= U * abs(qv) + ETA
+        except OverflowError:
+            continue
+        R.oracle(ok, "binary64-error-bound", {"op": "a:flb", "q": frac_s(qv)}, f"|float(q) - q| = {float(abs(fv - qv)):g} exceeds 2^-53|q| + 2^-1075",
+                 sig="fl64|error-bound|" + ("subnormal" if abs(qv) < Fraction(1, 2**1022) else "normal"))
+    EPS = 2 * U + U * U
+    for _ in range(R.pick(300, 3000)):
+        (ny_, nx_), (rx_, ry_), (ox_, oy_) = rng.choice(presets)
+        szv = float(nx_ * abs(Fraction(rx_)))
+        bz = O.Bin1D(szv, float(ox_), rng.choice([1, -1]))
+        ktile = rng.randint(-10**4, 10**4)
+        xv = float(Fraction(ox_) + (ktile + Fraction(rng.choice([rng.random(), 1e-9, 1 - 1e-9, 1e-13, 0.5]))) * Fraction(szv))
+        qq = (Fraction(xv) - Fraction(float(ox_))) / Fraction(szv)
+        band = EPS * abs(qq) + ETA * ((1 + U) / Fraction(szv) + 1)
+        fl_ = qq.numerator // qq.denominator
+        inside = not (band <= qq - fl_ and band < fl_ + 1 - qq)
+        if inside:
+            R.count("bin-band|point-inside-the-exclusion-band")
+            continue
+        got = H.guarded_obj(lambda: bz.bin(xv))
+        R.oracle(got == bz.direction * fl_, "bin-differs-outside-the-exclusion-band", {"op": "a:band", "sz": fs(szv), "o": fs(ox_), "d": bz.direction, "x": fs(xv)},
+                 f"Bin1D({szv},{ox_},{bz.direction}).bin({xv}) = {got}, exact floor gives {bz.direction * fl_}", sig="bin-band|outside")
+
     # how lazily the real generators work is recorded, not judged (the model's `generator_next_cache_keys` describes today's code:
     # nothing runs before the first next(), each next() touches the cache for the tiles it pulls only)
     try:
@@ -1099,6 +1247,45 @@ def replay_args(C, O, H, case) -> None:
         sp = H.Spec.from_tok(case["grid"].split(" "))
         gens = [("B", g[1], tuple(g[2])) if g[0] == "B" else ("P", [tuple(p) for p in g[1]], None) for g in case["gens"]]
         oracle_threads(C, H, O, sp.make(O), sp, gens, case["schedule"])
+    elif op == "a:gridint":
+        from odc.geo.geobox import GeoboxTiles
+        sp = H.Spec.from_tok(case["grid"].split(" "))
+        gs = sp.make(O)
+        k, dk = tuple(case["k"]), tuple(case["dk"])
+        ta, tb2 = gs[k], gs[k[0] + dk[0], k[1] + dk[1]]
+        for ca in ((2, 3), (max(1, ta.shape[0] // 3), max(1, ta.shape[1] // 2)), tuple(ta.shape)):
+            gi = GeoboxTiles(ta, ca).grid_intersect(GeoboxTiles(tb2, ca))
+            ne = {d_: s_ for d_, s_ in gi.items() if s_} if len(gi) < 5000 else {}
+            C.oracle(not ne, "tilings-of-different-tiles-intersect", case, f"chunks {ca}: {list(ne.items())[:3]}")
+    elif op in ("a:subtiles", "a:frombbox"):
+        from odc.geo.geobox import GeoBox, GeoboxTiles
+        sp = H.Spec.from_tok(case["grid"].split(" "))
+        gs = sp.make(O)
+        tile = gs[tuple(case["k"])]
+        if op == "a:frombbox":
+            rb = GeoBox.from_bbox(tile.boundingbox, shape=gs.tile_shape, tight=True)
+            print("from_bbox:", rb, "tile:", tile)
+            C.oracle(rb.shape == tile.shape and all(abs(u - v) <= 1e-9 * max(1, abs(v)) for u, v in zip(tuple(rb.affine)[:6], tuple(tile.affine)[:6])),
+                     "from-bbox-does-not-rebuild-tile", case, f"{rb!r} vs {tile!r}")
+        else:
+            a, b = case.get("chunk", [2, 3])
+            gbt = GeoboxTiles(tile, (a, b))
+            tot = 0
+            for r in range(gbt.shape[0]):
+                for c in range(gbt.shape[1]):
+                    sub = gbt[r, c]
+                    tot += sub.shape[0] * sub.shape[1]
+                    want, got = tile.affine * (c * b, r * a), sub.affine * (0, 0)
+                    C.oracle(all(abs(u - v) <= 1e-9 * max(1, abs(v)) for u, v in zip(got, want)), "tile-subtiles-do-not-partition", case,
+                             f"sub-tile {(r, c)}: {got} vs {want}")
+            C.oracle(tot == tile.shape[0] * tile.shape[1], "tile-subtiles-do-not-partition", case, f"{tot} pixels covered")
+    elif op == "a:flb":
+        qv = Fraction(case["q"])
+        C.oracle(abs(Fraction(float(qv)) - qv) <= Fraction(1, 2**53) * abs(qv) + Fraction(1, 2**1075), "binary64-error-bound", case, "float(q) too far from q")
+    elif op == "a:band":
+        bz = O.Bin1D(f(case["sz"]), f(case["o"]), case["d"])
+        qq = (Fraction(case["x"]) - Fraction(case["o"])) / Fraction(case["sz"])
+        C.oracle(bz.bin(f(case["x"])) == case["d"] * (qq.numerator // qq.denominator), "bin-differs-outside-the-exclusion-band", case, "rounded lookup differs")
     elif op == "a:cover":
         sp = H.Spec.from_tok(case["grid"].split(" "))
         oracle_geobox_cover(C, H, O, sp.make(O), sp, tuple(case["shape"]), tuple(f(v) for v in case["affine"]), case["n"], case["seed"])
